@@ -31,6 +31,9 @@ type Array []Value
 // Slice shares its backing store like a Go slice does.
 type Slice struct {
 	a []Value
+	// virt != nil: a length-only slice (content never touched): len() is this
+	// 64-bit term, every access to the content stops the path as unsupported.
+	virt *Term
 }
 
 type Iface struct {
@@ -315,7 +318,7 @@ func (x *Exec) equals(t types.Type, a, b Value) *Term {
 		return tc.Bool(false)
 	case Slice:
 		// only comparison against nil reaches here
-		return tc.Bool(a.a == nil && b.(Slice).a == nil)
+		return tc.Bool(a.a == nil && a.virt == nil && b.(Slice).a == nil && b.(Slice).virt == nil)
 	case nil:
 		return tc.Bool(b == nil)
 	}
@@ -345,7 +348,7 @@ func isNilValue(v Value) bool {
 	case *MapV:
 		return v == nil
 	case Slice:
-		return v.a == nil
+		return v.a == nil && v.virt == nil
 	case Iface:
 		return v.t == nil
 	case *ssa.Function:
